@@ -763,7 +763,7 @@ def support_psfphot(ctx, n):
             xs[0] = rng.choice([0.2, nx - 1.2])          # a source at the edge (window clipped)
         fl = [rng.uniform(50, 500) for _ in range(nsrc)]
         ninit = nsrc
-        if iterative and nsrc >= 2:
+        if iterative and nsrc >= 2 and it % 2 == 0:
             # the last source is bright and NOT in init_params: the finder must pick it up in the
             # residual of iteration 1, so that the model image spans several fit results
             fl[-1] = rng.uniform(300, 500)
@@ -802,7 +802,7 @@ def support_psfphot(ctx, n):
             if res is None:
                 continue
             for psf_shape in [None, (7, 7), (4, 6), 5]:
-                for inc in (False, True):
+                for inc in ((False, True) if psf_shape != (4, 6) else (True, False, True)):
                     try:
                         mimg = phot.make_model_image((ny, nx), psf_shape=psf_shape, include_localbkg=inc)
                         rimg = phot.make_residual_image(d, psf_shape=psf_shape, include_localbkg=inc)
@@ -885,7 +885,8 @@ def history_run(detail, on_request=None):
             return PSFPhotometry(psf, (5, 5), localbkg_estimator=lb, aperture_radius=4)
         return IterativePSFPhotometry(psf, (5, 5), finder=DAOStarFinder(10.0, 2.5),
                                       grouper=SourceGrouper(3.0) if kind == 'iter-all' else None,
-                                      localbkg_estimator=lb, aperture_radius=4, mode=kind[5:])
+                                      localbkg_estimator=lb, aperture_radius=4, mode=kind[5:],
+                                      maxiters=detail.get('maxiters', 3))
     psf_ref = CircularGaussianPRF(fwhm=fw)                 # never handed to the code under test
     phot = make()
     done = 0
@@ -904,13 +905,13 @@ def history_run(detail, on_request=None):
             warnings.simplefilter('ignore')
             try:
                 res = phot(d, init_params=init)
-                fresh = make()
-                res_f = fresh(d, init_params=init)
             except Exception as e:  # noqa: BLE001  (fitting is C12's subject)
                 return None, done
-            if res is None or res_f is None:
+            if res is None:
                 return None, done
             done += 1
+            nfit = len(phot.fit_results) if kind != 'psfphot' else 1
+            fresh_out = {}            # request -> images of a fresh instance that made ONLY that request
             tb0 = Table()
             tb0['x_0'] = _arr(res['x_fit'])
             tb0['y_0'] = _arr(res['y_fit'])
@@ -921,17 +922,24 @@ def history_run(detail, on_request=None):
                 try:
                     mimg = phot.make_model_image((ny, nx), psf_shape=psf_shape, include_localbkg=inc)
                     rimg = phot.make_residual_image(d, psf_shape=psf_shape, include_localbkg=inc)
-                    mimg_f = fresh.make_model_image((ny, nx), psf_shape=psf_shape, include_localbkg=inc)
-                    rimg_f = fresh.make_residual_image(d, psf_shape=psf_shape, include_localbkg=inc)
+                    key = (str(psf_shape), inc)
+                    if key not in fresh_out:
+                        # two fresh instances, one per method, each making exactly one request
+                        f1, f2 = make(), make()
+                        f1(d, init_params=init)
+                        f2(d, init_params=init)
+                        fresh_out[key] = (f1.make_model_image((ny, nx), psf_shape=psf_shape, include_localbkg=inc),
+                                          f2.make_residual_image(d, psf_shape=psf_shape, include_localbkg=inc))
+                    mimg_f, rimg_f = fresh_out[key]
                 except Exception as e:  # noqa: BLE001
                     return ('support:psfphot-history:raises:' + type(e).__name__,
                             'model/residual image raised on a re-used instance: ' + str(e)[:120], extra), done
                 if on_request:
-                    on_request(k, psf_shape, inc)
+                    on_request(k, psf_shape, inc, nfit)
                 if not _same(mimg, mimg_f) or not _same(rimg, rimg_f):
                     return ('support:psfphot-history:differs-from-fresh-instance',
-                            'model/residual image of a re-used instance differs from that of a fresh instance '
-                            'run on the same image', extra), done
+                            'model/residual image after a history of calls/requests differs from that of a fresh '
+                            'instance that made only this request on the same image', extra), done
                 if not _same(rimg, d - mimg):
                     return ('support:psfphot-history:residual', 'residual image != data - model image', extra), done
                 cf = residual_callforms(phot, data, use_unit, psf_shape, inc, mimg)
@@ -967,7 +975,8 @@ def support_psfphot_history(ctx, n):
         kind = ['psfphot', 'iter-new', 'iter-all'][it % 3]
         hist = []
         detail = {'support': 'psfphot-history', 'kind': kind, 'fwhm': rng.choice([2.0, 2.5, 3.0]),
-                  'localbkg': rng.choice(['estimator', 'column', 'none']),
+                  'localbkg': ['estimator', 'column', 'none'][(it // 3 + it) % 3],
+                  'maxiters': rng.choice([3, 3, 1]) if kind != 'psfphot' else 3,
                   'unit': kind == 'psfphot' and rng.random() < 0.3, 'history': hist}
         shape0 = (rng.randint(15, 22), rng.randint(15, 22))
         for k in range(rng.choice([2, 2, 3])):
@@ -978,10 +987,16 @@ def support_psfphot_history(ctx, n):
             ys = [rng.uniform(2, ny - 3) for _ in range(nsrc)]
             fl = [rng.uniform(80, 500) for _ in range(nsrc)]
             ninit = nsrc
-            if kind != 'psfphot':
-                fl[-1] = rng.uniform(300, 500)           # found by the finder in the residual of iteration 1
+            if kind != 'psfphot' and (k + it // 3) % 2 == 0:
+                # >= 2 fit iterations: the last source is bright and found by the finder in the residual of
+                # iteration 1 (unless maxiters == 1); otherwise every source is in init_params and nothing new
+                # is found: exactly ONE fit iteration
+                fl[-1] = rng.uniform(300, 500)
                 ninit = nsrc - 1
-            reqs = [rng.choice(HIST_ARGS) for _ in range(rng.randint(2, 4))]
+            # sequences that vary include_localbkg on the same window: True then False, False then True, repeats
+            sh = rng.choice([(7, 7), (4, 6), 5, None])
+            pat = rng.choice([[True, False], [False, True], [True, True, False], [False, True, False]])
+            reqs = [(sh, b) for b in pat] + [rng.choice(HIST_ARGS) for _ in range(rng.randint(0, 2))]
             reqs.append(reqs[0])                                     # a repeated request
             if k > 0:
                 reqs.insert(0, hist[-1]['requests'][0])              # the first request of the previous image
@@ -992,8 +1007,11 @@ def support_psfphot_history(ctx, n):
                          if detail['localbkg'] == 'column' else None,
                          'requests': [[list(a) if isinstance(a, tuple) else a, b] for a, b in reqs]})
 
-        def on_request(k, psf_shape, inc, kind=kind, detail=detail):
+        def on_request(k, psf_shape, inc, nfit, kind=kind, detail=detail):
             ctx.support('psfphot-history:' + kind)
+            if kind != 'psfphot':
+                ctx.stat('psfphot-history', f'{kind}:requests_with_fit_iterations={min(nfit, 2)}'
+                         + ('+' if nfit >= 2 else '') + f':localbkg={detail["localbkg"]}')
             ctx.count_case(['psfphot-history', kind, k, detail['history'][k]['x'], str(psf_shape), inc], True)
         fail, done = history_run(detail, on_request)
         ctx.stat('psfphot-history', f'{kind}:images_fitted={done}')
@@ -1074,7 +1092,9 @@ def run(ctx):
         'meta-data carried over and inputs untouched (support test)',
         'histories: one PSFPhotometry / IterativePSFPhotometry (new, all) instance re-used on 2-3 different images '
         'with model / residual images requested between and after the calls (varying and repeated arguments): '
-        'each request == superposition of the results table of that call == fresh instance, residual == data - model '
+        'iterative kinds with exactly 1 and with >= 2 fit iterations (maxiters 1 / 3, source left for the finder or '
+        'not), include_localbkg sequences True->False, False->True, repeated; each request == superposition of the '
+        'results table of that call == a fresh instance that made ONLY that request, residual == data - model '
         '(support test; no Coq model of the state of the photometry objects)',
         'input model and table unchanged: snapshot comparison on every case (no theorem: the Coq model is a pure '
         'function; loop_is_fold_of_independent_rows shows that the working copy never leaks parameters between '
@@ -1146,7 +1166,7 @@ def run(ctx):
     support_models(ctx, 60 if not thorough else 500)
     support_psf_sim(ctx, 10 if not thorough else 60)
     support_psfphot(ctx, 9 if not thorough else 45)
-    support_psfphot_history(ctx, 6 if not thorough else 36)
+    support_psfphot_history(ctx, 9 if not thorough else 45)
 
 
 def replay(obj):
